@@ -39,6 +39,12 @@ CHECKS = {
         "technique": "symbolic execution of the real code on symbolic reals (exact normal form identities) + CrossHair/z3 for the pure-Python axis kernel",
         "design_ref": "DESIGN.md section 5 (C12)",
     },
+    "C11": {
+        "text": "Bounded symbolic check: the four real law classes run on symbolic moduli / Poisson ratios (domains = the code's own parameter checkers, recorded) and on symbolic symmetric material matrices (21 entries); C=C^T, C.S=I (independently written C and S for the transversely isotropic and orthotropic laws), plane-stress / plane-strain reduction of the 3-D law, Voigt vs Kelvin-Mandel input, axes of any length, rotated axes = Q-rotated 4th-order tensor (explicit oracle), orthogonality and inverse application of the change-of-basis matrix, parameter change seen on next read and per-element parameter fields are identities / tolerance queries decided for all parameter values; positive definiteness through all leading principal minors (QF_NRA).",
+        "note": "Trusted: Sym rational arithmetic, exact elimination standing for np.linalg.inv (opaque for dense symbolic 6x6), z3 nlsat. 3-D axis frames are enumerated exact rational rotations; admissibility k_t>0 assumed for the transversely isotropic law; orthotropic box is a neighbourhood of an admissible material.",
+        "technique": SMT + "; rational identities in the moduli, minors positivity in QF_NRA",
+        "design_ref": "DESIGN.md section 5 (C11)",
+    },
 }
 
 NOT_APPLICABLE = {
